@@ -132,7 +132,7 @@ Section Run.
     let prs := parser_of (tnth 5 t) in
     let data := tB (tnth 6 t) in
     let ops := to_list tI (tnth 7 t) in
-    let r := mk_reader data 0 (if fault <? 0 then None else Some fault) kind in
+    let r := new_reader data (if fault <? 0 then None else Some fault) kind in
     let '(out, s) := run_ops ops prs skip (cap_of data) (init_dstate r opt_size) [] in
     TL [TL out; state_tok s;
         (if tI (tnth 0 (tnth 5 t)) =? 0 then TL [] else TL (map (fun g => TL (map tok_of_pkt_summary g)) (d_groups s)));
